@@ -4,6 +4,7 @@ import (
 	"encoding/json"
 	"fmt"
 	"math/rand"
+	"strings"
 	"time"
 	"verif/harness/cbsim"
 
@@ -197,6 +198,64 @@ func c12Spec(rng *rand.Rand, i int) (*SessSpec, string) {
 	return sp, kind
 }
 
+// c12Extra: kinds added after the fourth round of seeded changes.
+func c12Extra(rng *rand.Rand, kind string) *SessSpec {
+	sp := &SessSpec{NumVB: 2 + rng.Intn(4), Nodes: 1, AckSeed: rng.Int63(), PNow: 1, Backend: "mem", Backlog: map[int][][]ItemSpec{}, API: true}
+	o := &HistOpts{NumVB: sp.NumVB, PSystem: 0.05, PSeqAdv: 0.1, MaxItems: 4}
+	ctr := 0
+	for vb := 0; vb < sp.NumVB; vb++ {
+		sp.Backlog[vb] = append(sp.Backlog[vb], genSnap(rng, o, &ctr))
+	}
+	vb := rng.Intn(sp.NumVB)
+	switch kind {
+	case "reopen-refused":
+		// every re-open attempt after a transient end is refused: the library gives up with a fatal error after its retries
+		// (fail-stop) or keeps trying; it must neither carry on without the vBucket nor count it as ended for good
+		sp.ReqFail = map[int][2]int{vb: {2, []int{0x24, 0x84}[rng.Intn(2)]}}
+		sp.ReqFailFrom = true
+		sp.Steps = []Step{{Op: "barrier"}, {Op: "metrics"}, {Op: "end", VB: vb, St: transientStatus[rng.Intn(4)]}, {Op: "sleep", Ms: 7500}, {Op: "metrics"}, {Op: "waitstop", Ms: 150}}
+	case "retry-vs-rebalance":
+		// the first re-open attempt is refused; during the library's back-off a rebalance closes and reopens everything; the
+		// retry that wakes up afterwards belongs to the old open and must not request the vBucket a second time
+		sp.Membership = "dynamic"
+		sp.FirstInfo = [2]int{1, 1}
+		sp.ReqFail = map[int][2]int{vb: {2, []int{0x24, 0x84}[rng.Intn(2)]}}
+		sp.Steps = []Step{{Op: "barrier"}, {Op: "metrics"}, {Op: "end", VB: vb, St: transientStatus[rng.Intn(4)]}, {Op: "waitreopen", VB: vb, N: 2}, {Op: "sleep", Ms: 30}, {Op: "rebalanceapi"}, {Op: "waitrebalance", N: 1},
+			{Op: "sleep", Ms: 6500}, {Op: "barrier"}, {Op: "append", VB: vb, Items: genSnap(rng, o, &ctr)}, {Op: "barrier"}, {Op: "metrics"}, {Op: "waitstop", Ms: 150}}
+	case "rebalanced-allfinal":
+		// an idle stream is rebalanced (the node confirms every close request with a stream end, status "closed"); afterwards
+		// every vBucket ends for good, one after the other: each end is counted and the last one stops the client
+		sp.Membership = "dynamic"
+		sp.FirstInfo = [2]int{1, 1}
+		sp.Steps = []Step{{Op: "barrier"}, {Op: "metrics"}, {Op: "rebalanceapi"}, {Op: "waitrebalance", N: 1}, {Op: "barrier"}, {Op: "metrics"}}
+		for _, v := range rng.Perm(sp.NumVB) {
+			sp.Steps = append(sp.Steps, Step{Op: "end", VB: v, St: finalStatus[rng.Intn(len(finalStatus))]}, Step{Op: "sleep", Ms: 40}, Step{Op: "metrics"})
+		}
+		sp.Steps = append(sp.Steps, Step{Op: "waitstop", Ms: 3000})
+	case "finite-rebalance":
+		// a finite run is rebalanced before anything was consumed (the node confirms every close request with a stream end):
+		// afterwards every vBucket still runs to its end and the client stops on its own
+		sp.Mode = "finite"
+		sp.API = true
+		sp.Membership = "dynamic"
+		sp.FirstInfo = [2]int{1, 1}
+		if rng.Intn(2) == 0 {
+			sp.HoldConsAtStart = true
+			sp.Steps = []Step{{Op: "waitblocked", N: 1}, {Op: "rebalanceapi"}, {Op: "waitrebalance", N: 1}, {Op: "releasecons"}, {Op: "waitstop", Ms: 5000}}
+			break
+		}
+		// ... or while a slow consumer is working through the backlog
+		sp.SlowConsUs = 25000
+		for v := 0; v < sp.NumVB; v++ {
+			for k := 0; k < 3; k++ {
+				sp.Backlog[v] = append(sp.Backlog[v], genSnap(rng, o, &ctr))
+			}
+		}
+		sp.Steps = []Step{{Op: "sleep", Ms: 60 + rng.Intn(60)}, {Op: "rebalanceapi"}, {Op: "waitrebalance", N: 1}, {Op: "waitstop", Ms: 9000}}
+	}
+	return sp
+}
+
 func OracleEnds(tr *Trace) ([]Finding, int) {
 	var fs []Finding
 	n := 0
@@ -217,10 +276,26 @@ func OracleEnds(tr *Trace) ([]Finding, int) {
 		end = 1<<62 - 1
 	}
 	finalEnded := map[int]int64{}
+	// a rebalance re-requests every assigned vBucket from the stored checkpoints (C11), whatever ended before it
+	var opens []int64
+	for _, r := range tr.Log {
+		if r.K == "eh.BSStart" && r.T < end {
+			opens = append(opens, r.T)
+		}
+	}
+	reopenedBetween := func(a, b int64) bool {
+		for _, t := range opens {
+			if t > a && t < b {
+				return true
+			}
+		}
+		return false
+	}
+	endedBeforeLastOpen := false
 	for vb := 0; vb < sp.NumVB; vb++ {
 		segs := tr.Segs[vb]
 		for i, sg := range segs {
-			if sg.ReplySt != 0 && sg.ReplySt != int(cbsim.StRollback) && i+1 < len(segs) && segs[i+1].ReqT < end && i > 0 {
+			if sg.ReplySt != 0 && sg.ReplySt != int(cbsim.StRollback) && i+1 < len(segs) && segs[i+1].ReqT < end && i > 0 && !reopenedBetween(sg.ReqT, segs[i+1].ReqT) {
 				// a refused re-open attempt: the next attempt starts from the position tracked when IT is made
 				nx := segs[i+1]
 				want := tuple{segs[0].ReqUUID, segs[0].Start, segs[0].SnapS, segs[0].SnapE}
@@ -273,7 +348,9 @@ func OracleEnds(tr *Trace) ([]Finding, int) {
 						fs = append(fs, Finding{"C12", "reopen", "C12/reopen/position", fmt.Sprintf("vb %d: re-opened after transient end from (vbuuid %x, %d, [%d,%d]); latest settled position was (vbuuid %x, %d, [%d,%d])", vb, got.uuid, got.seq, got.ss, got.se, want.uuid, want.seq, want.ss, want.se)})
 					}
 				} else {
-					if sg.NextReqT != 0 && sg.NextReqT < end {
+					if len(opens) > 0 && sg.EndT < opens[len(opens)-1] {
+						endedBeforeLastOpen = true // belongs to an earlier open; the rebalance streams the vBucket again
+					} else if sg.NextReqT != 0 && sg.NextReqT < end {
 						fs = append(fs, Finding{"C12", "final", "C12/final/reopened", fmt.Sprintf("vb %d: stream ended for good (status %d) and was requested again", vb, sg.EndSt)})
 					} else {
 						finalEnded[vb] = sg.EndT
@@ -303,6 +380,24 @@ func OracleEnds(tr *Trace) ([]Finding, int) {
 			}
 		}
 	}
+	// every re-open attempt refused: a client that is still running keeps trying (the script watched it for 7.5 s)
+	if sp.ReqFailFrom && closeCall != 0 {
+		for vb := range sp.ReqFail {
+			var lastReqW, closeW int64
+			for _, r := range tr.Log {
+				if r.K == "sim.rx" && r.Op == cbsim.OpDcpStreamReq && r.VB == vb && r.T < closeCall {
+					lastReqW = r.W
+				}
+				if r.K == "ctl.close.call" && closeW == 0 {
+					closeW = r.W
+				}
+			}
+			n++
+			if lastReqW != 0 && closeW-lastReqW > int64(2500*time.Millisecond) {
+				fs = append(fs, Finding{"C12", "reopen", "C12/reopen/abandoned", fmt.Sprintf("vb %d: every re-open attempt after the transient end was refused; the client neither stopped with an error nor kept trying (%d stream requests, the last one %.1f s before the harness closed the client) - it carries on without the vBucket", vb, len(tr.Segs[vb]), float64(closeW-lastReqW)/1e9)})
+			}
+		}
+	}
 	// self-termination iff every assigned vBucket ended for good
 	allFinal := len(finalEnded) == sp.NumVB
 	stoppedSelf := startRet != 0 && (closeCall == 0 || startRet < closeCall)
@@ -326,6 +421,9 @@ func OracleEnds(tr *Trace) ([]Finding, int) {
 		v, ok := m.Vals["cbgo_active_stream_current"]
 		if !ok {
 			continue
+		}
+		if endedBeforeLastOpen && len(opens) > 0 && m.TCall < opens[len(opens)-1] {
+			continue // a scrape in an earlier open that had final ends of its own: not reconstructed here
 		}
 		ended := 0
 		ambiguous := false
@@ -410,6 +508,13 @@ func init() {
 				sp, kind := c12Spec(rng, i)
 				out = append(out, drv.Scenario{Kind: kind, Seed: seed, Params: mustJSON(sp), TimeoutS: 120})
 			}
+			// further kinds, drawn from their own source so that the list above stays what it was
+			xr := rand.New(rand.NewSource(seed*131 + 7))
+			for j := 0; j < n/80; j++ {
+				for _, k := range []string{"reopen-refused", "retry-vs-rebalance", "finite-rebalance", "rebalanced-allfinal"} {
+					out = append(out, drv.Scenario{Kind: k, Seed: seed, Params: mustJSON(c12Extra(xr, k)), TimeoutS: 120})
+				}
+			}
 			return out
 		},
 		Run: func(sc drv.Scenario) drv.Result {
@@ -444,7 +549,7 @@ func init() {
 			}
 			sample := map[string]any{"kind": sc.Kind, "vbuckets": sp.NumVB, "transient_ends": tcount, "final_ends": fcount, "stream_requests": tr.count("sim.rx.streamreq"), "active_stream_gauge_readings": gauges,
 				"start_returned_on_its_own": tr.count("ctl.start.ret") > 0}
-			r := sessionResult("C12", tr, fs, (tcount > 0 && fcount > 0) || rep || sc.Kind == "socket" || sc.Kind == "finite", sample)
+			r := sessionResult("C12", tr, fs, (tcount > 0 && fcount > 0) || rep || sc.Kind == "socket" || sc.Kind == "finite" || sc.Kind == "reopen-refused" || sc.Kind == "retry-vs-rebalance" || sc.Kind == "finite-rebalance" || sc.Kind == "rebalanced-allfinal", sample)
 			r.Events["sim.rx.streamreq"] = 0
 			for _, segs := range tr.Segs {
 				r.Events["sim.rx.streamreq"] += len(segs)
@@ -453,6 +558,10 @@ func init() {
 			return r
 		},
 		OnDeath: func(sc drv.Scenario, out drv.ChildOutcome) drv.Result {
+			if sc.Kind == "reopen-refused" && drv.IsLibraryPanic(out.Stderr) && strings.Contains(out.Stderr, "reopenStream") {
+				return drv.Result{Verdict: drv.Held, Nontrivial: true, Checks: 1, TraceHash: drv.Hash("reopen-refused", "fail-stop"), Events: map[string]int{"fail_stop": 1},
+					Sample: map[string]any{"kind": sc.Kind, "outcome": "fail-stop after the refused re-open attempts: " + drv.PanicLine(out.Stderr)}}
+			}
 			if drv.IsLibraryPanic(out.Stderr) {
 				return drv.Result{Verdict: drv.Violated, Clause: "death", FindingKey: "C12/process-death", Detail: "the client died while recovering from stream ends (the vBucket does not keep being streamed): " + drv.PanicLine(out.Stderr)}
 			}
